@@ -69,6 +69,7 @@ fn main() {
         let (_kind, name, path) = explore::read_replay(&file);
         match id.as_str() {
             "C04" => print_replay(&id, props::c04::replay(&name, &path)),
+            "C05" => print_replay(&id, props::c05::replay(&name, &path)),
             _ => {
                 eprintln!("unknown property {id}");
                 2
@@ -77,6 +78,7 @@ fn main() {
     } else {
         match id.as_str() {
             "C04" => props::c04::check(&tier),
+            "C05" => props::c05::check(&tier),
             _ => {
                 eprintln!("unknown property {id}");
                 2
